@@ -2,6 +2,7 @@ import QuiverModel.Core.Prelude
 import QuiverModel.Core.Text.Doc
 import QuiverModel.Core.Text.Escape
 import QuiverModel.Core.Text.Scan
+import QuiverModel.Core.Text.Fragment
 /-
 Requests shared by `qm_c17` and `qm_c18` (M-Text). Strings travel as hex of their UTF-8 bytes; the
 empty string is `-`.
@@ -19,6 +20,10 @@ empty string is `-`.
   pattern-single <hex> | pattern-multi <hex>  → ok <hex> <hex-rest> | unterminated | malformed | panic
   detect <hex-source>          → UnterminatedString | …
   span <hex-input> <offset>    → <offset> <line> <column> <length>
+  frag-fmt <term>              → s:<hex>   model of format_program on the fragment (Core/Text/Fragment)
+  frag-print <width> <term>    → s:<hex>   print (programDoc term) width
+  frag-parse <hex-source>      → ok <term> <hex-rest> | err <offset-from-end> <code> | out   (programP)
+      <term> ::= (l <hex-name>) | (t <term>*)
 -/
 open QM QM.Text
 
@@ -59,12 +64,6 @@ partial def docOfSx : Sx → Option Doc
     | _, _ => none
   | .list [.atom "ls", d] => (docOfSx d).map .lineSuffix
   | _ => none
-
-/-- `format.rs::break_if_wider_than` -/
-def breakIfWiderThan (inner : Doc) (threshold : Nat) : Doc :=
-  match flatWidth inner threshold with
-  | some _ => inner
-  | none => .concat [inner, .breakParent]
 
 /-- `format.rs::bracketed(open, close, [item], trailing = true)` for a single item. -/
 def bracketed1 (opn : List Char) (item : Doc) : Doc :=
@@ -130,8 +129,33 @@ def renderOpt : Option (List Char) → String
   | some cs => s!"some {charsToHex cs}"
   | none => "none"
 
+partial def fragOfSx : Sx → Option QM.Frag.T
+  | .list [.atom "l", .atom h] => (hexToChars h).map .leaf
+  | .list (.atom "t" :: fs) => (fs.mapM fragOfSx).map .tup
+  | _ => none
+
+partial def fragToSx : QM.Frag.T → String
+  | .leaf n => s!"(l {charsToHex n})"
+  | .tup fs => "(t" ++ String.join (fs.map (fun f => " " ++ fragToSx f)) ++ ")"
+
 def textStep (req : List Sx) : String :=
   match req with
+  | [.atom "frag-fmt", t] =>
+    match fragOfSx t with
+    | some t => sHex (QM.Frag.fmtFrag t)
+    | none => "bad-request"
+  | [.atom "frag-print", w, t] =>
+    match w.asNat, fragOfSx t with
+    | some w, some t => sHex (print (QM.Frag.programDoc t) w)
+    | _, _ => "bad-request"
+  | [.atom "frag-parse", .atom h] =>
+    match hexToChars h with
+    | none => "bad-request"
+    | some cs =>
+      match QM.Frag.programP cs with
+      | .ok t rest => s!"ok {fragToSx t} {charsToHex rest}"
+      | .err pos code => s!"err {pos.length} {reprStr code}"
+      | .out => "out"
   | [.atom "print", w, d] =>
     match w.asNat, docOfSx d with
     | some w, some d => sHex (print d w)
